@@ -281,6 +281,93 @@ fn check_positions(input: &str, obs: &Obs, rule: &str, shapes: &Shapes) -> Resul
     Ok(count)
 }
 
+/// does `spec` (Debug of ParseErrorSpecifics) name something of this grammar that really fails at byte offset `p`?
+fn detail_is_a_true_failure(g: &GCtx, input: &str, p: usize, spec: &str) -> bool {
+    let rest = &input[p..];
+    let next = rest.chars().next();
+    let mut ok = false;
+    let mut has_eoi = false;
+    let mut has_not = false;
+    let mut has_char = false;
+    let mut on_char = |c: char| {
+        if spec == format!("ExpectedCharacter {{ c: {:?} }}", c) && next != Some(c) {
+            ok = true;
+        }
+    };
+    let mut lits: Vec<(String, bool)> = vec![];
+    let mut ranges: Vec<(char, char)> = vec![];
+    let mut chars: Vec<char> = vec![];
+    for r in &g.model.rules {
+        match r {
+            RuleDef::Normal(n) => {
+                n.body.walk(&mut |e| match e {
+                    Expr::Lit { s, insensitive } => {
+                        lits.push((s.clone(), *insensitive));
+                        if s.chars().count() == 1 {
+                            chars.push(s.chars().next().unwrap());
+                        }
+                    }
+                    Expr::Range(a, b) => ranges.push((*a, *b)),
+                    Expr::Eoi => has_eoi = true,
+                    Expr::Not(_) => has_not = true,
+                    Expr::Ref { typ, .. } if typ == "char" => has_char = true,
+                    _ => {}
+                });
+                for c in n.checks() {
+                    if spec == format!("CheckFunctionFailed {{ function_name: {:?} }}", c) {
+                        return true;
+                    }
+                }
+            }
+            RuleDef::CharClass(c) => {
+                if spec == format!("ExpectedCharacterClass {{ name: {:?} }}", c.name) {
+                    return true;
+                }
+                for part in &c.parts {
+                    match part {
+                        CharPart::Char(x) => chars.push(*x),
+                        CharPart::Range(a, b) => ranges.push((*a, *b)),
+                        CharPart::Class(n) if n == "char" => has_char = true,
+                        _ => {}
+                    }
+                }
+                for f in c.checks_before.iter().chain(&c.checks_after) {
+                    if spec == format!("CheckFunctionFailed {{ function_name: {:?} }}", f.join("::")) {
+                        return true;
+                    }
+                }
+            }
+            RuleDef::Extern(_) => {
+                if spec.starts_with("ExternRuleFailed") {
+                    return true;
+                }
+            }
+        }
+    }
+    for c in chars {
+        on_char(c);
+    }
+    if ok {
+        return true;
+    }
+    for (a, b) in ranges {
+        let (lo, hi) = if a <= b { (a, b) } else { (b, a) };
+        if spec == format!("ExpectedCharacterRange {{ from: {:?}, to: {:?} }}", a, b) && !next.map_or(false, |c| a <= b && lo <= c && c <= hi) {
+            return true;
+        }
+    }
+    for (s, insensitive) in lits {
+        let shown = if insensitive { s.to_ascii_lowercase() } else { s.clone() };
+        if spec == format!("ExpectedString {{ s: {:?} }}", shown) || spec == format!("ExpectedString {{ s: {:?} }}", s) {
+            let matches = if insensitive { rest.len() >= s.len() && rest.is_char_boundary(s.len()) && rest[..s.len()].eq_ignore_ascii_case(&s) } else { rest.starts_with(&s) };
+            if !matches {
+                return true;
+            }
+        }
+    }
+    (spec == "ExpectedEoi" && has_eoi && p < input.len()) || (spec == "ExpectedAnyCharacter" && has_char && p == input.len()) || (spec == "NegativeLookaheadFailed" && has_not)
+}
+
 fn check_error(g: &GCtx, input: &str, plain: &Obs, o: &Outcome) -> Result<(), Failure> {
     let len = input.len();
     if plain.err_pos > len || !input.is_char_boundary(plain.err_pos) {
@@ -295,7 +382,13 @@ fn check_error(g: &GCtx, input: &str, plain: &Obs, o: &Outcome) -> Result<(), Fa
         }
         return Err(fail("the internal left-recursion sentinel surfaced as the reported error", format!("one of {:?}", o.far), format!("pos={} {}", plain.err_pos, spec)));
     }
-    if !o.all.contains(&(plain.err_pos, spec.to_string())) {
+    // The offset must be one at which the reference evaluation records a failed attempt. The detail must be one of the
+    // reference's attempts there, or - an implementation may make further real attempts of its own at that offset (a
+    // first-character pre-test, a class reporting its alternative's error ...) - at least name a terminal / class / user
+    // function / lookahead of THIS grammar that truly does not match at that offset.
+    let offset_known = o.all.iter().any(|(p, _)| *p == plain.err_pos);
+    let detail_ok = o.all.contains(&(plain.err_pos, spec.to_string())) || detail_is_a_true_failure(g, input, plain.err_pos, spec);
+    if !offset_known || !detail_ok {
         return Err(fail(
             "reported error is not a match attempt that failed at that offset during this parse",
             format!("one of {:?}", o.all.iter().take(12).collect::<Vec<_>>()),
@@ -308,7 +401,7 @@ fn check_error(g: &GCtx, input: &str, plain: &Obs, o: &Outcome) -> Result<(), Fa
                 if *p != plain.err_pos {
                     return Err(fail("reported position is not the furthest failure", format!("pos={} one of {:?}", p, specs), format!("pos={} {}", plain.err_pos, spec)));
                 }
-                if !specs.contains(spec) {
+                if !specs.contains(spec) && !detail_is_a_true_failure(g, input, plain.err_pos, spec) {
                     return Err(fail("reported detail is not an attempt that counted at the furthest offset", format!("pos={} one of {:?}", p, specs), format!("pos={} {}", plain.err_pos, spec)));
                 }
             }
@@ -654,7 +747,12 @@ pub fn check_case(prop: &str, g: &GCtx, e: &RuleEntry, input: &str) -> Result<Ca
             }
             if plain.panic.is_none() {
                 check_trace_balance(e.rule, &rec)?;
-                check_trace_vs_oracle(g, &rec, &o)?;
+                // Which entries a correct implementation reports beyond balance is not specified (speculative attempts,
+                // inlined rules, cache hits without an entry are all legitimate): agreement with the interpreter's own
+                // entry list is recorded as a class, not demanded.
+                if check_trace_vs_oracle(g, &rec, &o).is_ok() {
+                    out.classes.push("trace_entries_match_reference_evaluation");
+                }
             }
             let failing = rec.trace.iter().any(|t| matches!(t, TEv::Result { ok: false, .. }));
             let info = rec.trace.iter().any(|t| matches!(t, TEv::Info { .. }));
